@@ -4,6 +4,13 @@ MC      MC_Names: Names.tla on itself with MaxLabel=2/MaxName=8 (limits reached 
 GEN     Gen_Names (real limits) -> harness `names replay`; the expected values are TLC's:
           strings   every text of <= N symbols over {a A 0 . \\ space \\200 \\.}: IsFqdn, IsDomainName, PackDomainName
                     (accept + octets), the compressed sequence parent/name/name over one map          [mutant at-not-special]
+          (every vector) the compressed sequences of harness packCtx - parent / name / name again, and for valid names
+                    other-case parent / name / other-case name / name again (Names!OtherCaseName; ftext, fwire, fptext
+                    in the vector) - over one compression map, beginning at offset 12, 0, 1, 255 and 16370 of the
+                    buffer: the octets written expand to the spec's octets wherever the sequence begins (a pointer
+                    target at offset 0, astride 255/256 and astride 16383) and whatever the letter case of the names
+                    packed before (a pointer may only replace labels that are octet for octet the same)
+                    [seed C03-19: finding keys ...:clean-map@0; seed C03-21: ...-behind-flipped-parent / flipped-behind-name]
           shapes    label-length vectors over {1,2,61..65}, at most 6 labels, wire length 250..260, four fill
                     octets: UnpackDomainName / IsDomainName / PackDomainName on the limits          [mutants label64, budget-lt]
           octets    256 octet values x 3 positions, in the spelling the library writes
@@ -22,10 +29,18 @@ TV      harness `names record c03` -> Trace_Names (TLC judges each event)
                     through a pointer; the text is given back to IsDomainName and PackDomainName
           respell   every fourth event: such a name written in a random mix of raw / \\c / \\DDD spellings,
                     packed and judged by IsDomainName; RespellOK compares with Parse + EncName       [seeds C03-16, C03-18]
+          packseq   every eighth event: 2-5 valid names packed one behind the other with PackDomainName over one
+                    compression map (1 in 8 without compress), beginning at offset 0 / 1 / 2 / 12 / 254..256 / anywhere
+                    below 600 / 16360..16390: a base name, names under it or under one of its parents, the same in other
+                    letter case, its suffixes, unrelated names.  PackSeqOK: each is accepted, and TLC reads it back out
+                    of the buffer (Names!WireDenotesName = DecName follows the pointers): exactly the labels Parse reads
+                    from the text, octet for octet, ending where PackDomainName said           [seeds C03-19, C03-21]
 Mutants (checks/mutants/C03): at-not-special, budget-lt, label64 as above; pack-ddd-special (the packer refuses \\046 and
 \\092: spell, escapes, respell), isdn-ddd-printable (IsDomainName counts a \\DDD-spelled printable octet four times:
 spellshapes, respell), unpack-label-cap (UnpackDomainName refuses more than 126 labels: crowd, unpack events; the
-repository's own tests see that one too).
+repository's own tests see that one too), compress-pointer-gt0 (a compression hit at offset 0 is ignored after the loop
+was left, seed C03-19's neighbour: packCtx @0, packseq), compress-lowercase-key (compression map keyed by the lower-cased
+suffix: packCtx flipped sequences, packseq).
 """
 import os, json
 import vp
@@ -107,7 +122,8 @@ def run(ctx):
                       "\\048 \\\\ \\.) up to N symbols; 256 octets x 3 positions x 3 spellings (raw, \\c, \\DDD); 30 boundary shapes x 18 fill/spelling combinations; every label-length "
                       "vector over {1,2,61..65} with wire length 250..260 x 4 fill octets; names of 127-N..127+N labels of 1-2 octets "
                       "with wire length 250..260 x 5 fills; events: random wire names incl. pointers and crowded ones, random "
-                      "respellings of their text. distinct = distinct texts / wire strings; non-trivial = inside RFC 1035 (st # undef)")
+                      "respellings of their text, sequences of related names (same / other letter case) packed over one compression map from offsets 0..600 and around 16384. "
+                      "Every vector also through the compressed sequences parent/name/name and other-case parent/name/other-case name/name at offsets 12, 0, 1, 255, 16370. distinct = distinct texts / wire strings; non-trivial = inside RFC 1035 (st # undef)")
 
 
 def replay(ctx, path):
